@@ -37,10 +37,23 @@ fn recv_tape(seed: u64, stream: &str) -> RecvTape {
     RecvTape { stream: stream.to_string(), bits, tas, ros }
 }
 
+/// for about half of the session ids the caller's output buffer has been used before (deterministic junk): the message
+/// written by `new` / `process` must not depend on what the buffer held
+fn dirty_out(buf: &mut [u8], sid: &[u8]) {
+    if sid.iter().fold(sid.len() as u8, |a, b| a ^ b) & 1 == 1 {
+        let mut x = 0x9e37_79b9_7f4a_7c15u64 ^ (sid.len() as u64);
+        for b in buf.iter_mut() {
+            x ^= x << 13; x ^= x >> 7; x ^= x << 17;
+            *b = x as u8;
+        }
+    }
+}
+
 /// the real receiver, round 1 (re-created whenever needed: `process` consumes it)
 fn real_recv_new(seed: u64, tape: &RecvTape, sid: &[u8]) -> (EndemicOTReceiver, Vec<u8>) {
     let mut r = rng(seed, &tape.stream);
     let mut msg1 = EndemicOTMsg1::default();
+    dirty_out(bytemuck::bytes_of_mut(&mut msg1), sid);
     let recv = EndemicOTReceiver::new(sid, &mut msg1, &mut r);
     (recv, bytemuck::bytes_of(&msg1).to_vec())
 }
@@ -62,6 +75,7 @@ fn real_send(seed: u64, stream: &str, sid: &[u8], msg1: &[u8]) -> SendRes {
     let mut m1 = EndemicOTMsg1::default();
     bytemuck::bytes_of_mut(&mut m1).copy_from_slice(msg1);
     let mut m2 = EndemicOTMsg2::default();
+    dirty_out(bytemuck::bytes_of_mut(&mut m2), sid);
     let res = catch_unwind(AssertUnwindSafe(|| EndemicOTSender::process(sid, &m1, &mut m2, &mut r)));
     let msg2 = bytemuck::bytes_of(&m2).to_vec();
     match res {
